@@ -43,7 +43,7 @@ CHECKS.update({
  'C10': dict(level='other', engine='S-exp/bv',
    technique='symbolic execution of rustc MIR with one inductive step per Pippenger window position (cut point at the outer loop head), symbolic bucket indices, unwinding obligations; z3 QF_BV',
    text='sum_of_products_pippinger: from an arbitrary accumulator and identity buckets one execution of the real loop body is shown to produce res\' = 2^d res + sum digit_i e_i, buckets identity again, next position per schedule, for all scalars < 2^255; window arithmetic facts close the induction; the step is also run with linearly DEPENDENT points ([P,-P], [P,P,-2P]) so that running sums of the reduction can pass through the identity. Digit extraction/index safety/max_bucket for every window 1..=20 with a SYMBOLIC bit position 0..=255 (all three extraction branches, recorded bucket updates, soundness and completeness) in both tiers. find_pippinger_window in 1..=16 and monotone for every usize; sum_of_products delegates with min length; precomp_256 variant for all 256-bit scalars. Every window / entry point / the table variant is additionally run natively on point multisets with identities, duplicates, inverse points and mismatched lengths against the reference curve arithmetic (replay target; supplementary).',
-   note='Full step incl. reduction: quick windows 1..4 (n<=3) at one position per control-flow class; thorough windows 1..8: one position per control-flow class plus every 16th (w<=2) resp. every 8th (w=3,4) position (and digit extraction again at concrete class positions of nine windows). Windows 7, 8 are optional ladder rungs of the thorough tier (reported as not discharged when the 3.5 GB / 1200 s per-query budget does not suffice). Bucket reduction for windows 9..20 and n>3 outside the claim. Group law assumed (C01).',
+   note='Full step incl. reduction: quick windows 1..4 (n<=3) at one position per control-flow class; thorough windows 1..8 (5..8 as optional ladder rungs), n = 3 for windows 1..3, one position per control-flow class (and digit extraction again at concrete class positions of nine windows); wider position sweeps were tried and never finished on this machine. Windows 5..8 are optional ladder rungs of the thorough tier (reported as not discharged when the 3.5 GB / 1200 s per-query budget does not suffice). Bucket reduction for windows 9..20 and n>3 outside the claim. Group law assumed (C01).',
    ref='6/C10'),
 })
 
